@@ -241,12 +241,15 @@ macro_rules! fmt_specs {
             [1, 0, 1, 20, 32, 3] => Some(format!(concat!("{:>+020", $r, "}"), $v)),
             [1, 1, 1, 24, 42, 2] => Some(format!(concat!("{:*^+#024", $r, "}"), $v)),
             [0, 1, 1, 9, 95, 1] => Some(format!(concat!("{:_<#09", $r, "}"), $v)),
+            [0, 0, 0, 0, 32, 12] => Some(format!(concat!("{:.2", $r, "}"), $v)),
+            [0, 0, 0, 12, 32, 13] => Some(format!(concat!("{:12.3", $r, "}"), $v)),
+            [0, 1, 0, 0, 32, 12] => Some(format!(concat!("{:#.2", $r, "}"), $v)),
             _ => None,
         }
     };
 }
 
-pub const FMT_SPECS: [[u128; 6]; 23] = [
+pub const FMT_SPECS: [[u128; 6]; 26] = [
     [0, 0, 0, 0, 32, 0],
     [0, 1, 0, 0, 32, 0],
     [1, 0, 0, 0, 32, 0],
@@ -271,6 +274,11 @@ pub const FMT_SPECS: [[u128; 6]; 23] = [
     [1, 0, 1, 20, 32, 3],
     [1, 1, 1, 24, 42, 2],
     [0, 1, 1, 9, 95, 1],
+    // a precision (`.N`), which integer formatting ignores: alignment codes 12 / 13 stand for "default alignment, with a
+    // precision of 2 / 3" (the model treats any other alignment code as the default, which is what std does)
+    [0, 0, 0, 0, 32, 12],
+    [0, 0, 0, 12, 32, 13],
+    [0, 1, 0, 0, 32, 12],
 ];
 
 macro_rules! fmt_all {
